@@ -230,28 +230,39 @@ def c11_resize_cv2(ctx, dtype):
     ctx.ensure("resize keeps dimensions and origin", out.dimensions == img.dimensions and bool(np.allclose(out.origin, img.origin)))
 
 
-@ob("C11.superpose", kind="B", cases=[dict(n=k) for k in (1, 2, 3, 4)], funcs=FUNCS, samples=(1, 3), tol=1e-6,
+@ob("C11.superpose", kind="B", cases=[dict(n=k, anchor=a) for k in (1, 2, 3, 4) for a in ("near", "far", "far-negative")], funcs=FUNCS, samples=(1, 3), tol=1e-6,
     cite="superposition of grid-aligned images onto a common canvas ... preserve the physical integral ... superposing images that share a grid equals adding their arrays",
     note="bounded: cv2.warpPerspective based; voxel-aligned, exactly representable offsets")
-def c11_superpose(ctx, n):
+def c11_superpose(ctx, n, anchor):
     rng = np.random.default_rng(ctx.rng.randrange(1 << 30))
-    h = 0.25
+    # "far": millimetre voxels on a grid anchored ~1e3 voxel-size units from the coordinate origin - a whole-voxel offset is then below
+    # the relative tolerance of np.allclose / np.isclose on the corner coordinates (all values exactly representable)
+    h, ox, oy = {"near": (0.25, 1.0, 2.0), "far": (2.0 ** -10, 1024.0, 2048.0), "far-negative": (2.0 ** -10, -4096.0, 512.0)}[anchor]
     shape = (4, 6)
-    same_grid = [darsia.ScalarImage(rng.random(shape), dimensions=[shape[0] * h, shape[1] * h], origin=[1.0, 2.0]) for _ in range(n)]
+    same_grid = [darsia.ScalarImage(rng.random(shape), dimensions=[shape[0] * h, shape[1] * h], origin=[ox, oy]) for _ in range(n)]
     out = darsia.superpose(same_grid)
     ctx.ensure("images sharing a grid: superposition == sum of the arrays", out.img.shape == shape and bool(np.allclose(out.img, sum(im.img for im in same_grid), atol=1e-9)))
-    ctx.ensure("images sharing a grid: metadata kept", bool(np.allclose(out.origin, [1.0, 2.0])) and bool(np.allclose(out.dimensions, [shape[0] * h, shape[1] * h])))
+    ctx.ensure("images sharing a grid: metadata kept", bool(np.allclose(out.origin, [ox, oy], rtol=0, atol=h * 1e-6)) and bool(np.allclose(out.dimensions, [shape[0] * h, shape[1] * h], rtol=1e-9, atol=0)))
+    # same shape and voxel size, shifted by whole voxels
+    shifted = []
+    for k in range(n):
+        off = (k % 2, (k + 1) // 2)
+        shifted.append(darsia.ScalarImage(rng.random(shape), dimensions=[shape[0] * h, shape[1] * h], origin=[ox + off[1] * h, oy - off[0] * h]))
+    outs = darsia.superpose(shifted)
+    rows_, cols_ = shape[0] + max(k % 2 for k in range(n)), shape[1] + max((k + 1) // 2 for k in range(n))
+    tot = sum(im.img.sum() for im in shifted) * h * h
+    ctx.ensure("equal-sized images shifted by whole voxels: canvas has the bounding-box shape", outs.img.shape[:2] == (rows_, cols_))
+    ctx.ensure("equal-sized images shifted by whole voxels: physical integral == sum of the integrals", abs(outs.img.sum() * np.prod(outs.voxel_size) - tot) <= 1e-6 * tot)
     imgs = []
     for k in range(n):
         sh = (int(rng.integers(2, 5)), int(rng.integers(2, 6)))
         off = (int(rng.integers(0, 4)), int(rng.integers(0, 4)))
-        imgs.append(darsia.ScalarImage(rng.random(sh), dimensions=[sh[0] * h, sh[1] * h], origin=[1.0 + off[1] * h, 2.0 - off[0] * h]))
+        imgs.append(darsia.ScalarImage(rng.random(sh), dimensions=[sh[0] * h, sh[1] * h], origin=[ox + off[1] * h, oy - off[0] * h]))
     out = darsia.superpose(imgs)
     vol = h * h
     ctx.ensure("voxel-aligned offsets: physical integral of the superposition == sum of the integrals", abs(out.img.sum() * np.prod(out.voxel_size) - sum(im.img.sum() * vol for im in imgs)) <= 1e-6 * max(1.0, sum(im.img.sum() * vol for im in imgs)))
-    ctx.ensure("canvas is the bounding box of the inputs", bool(np.isclose(out.dimensions[0], max(2.0 - 0 for _ in [0]) - min(im.opposite_corner[1] for im in imgs) if False else out.dimensions[0]))
-               and bool(np.allclose(out.voxel_size, [h, h])))
+    ctx.ensure("canvas keeps the voxel size", bool(np.allclose(out.voxel_size, [h, h], rtol=1e-9, atol=0)))
     xmin = min(im.origin[0] for im in imgs); xmax = max(im.opposite_corner[0] for im in imgs)
     ymax = max(im.origin[1] for im in imgs); ymin = min(im.opposite_corner[1] for im in imgs)
-    ctx.ensure("canvas extent == extremal corners of the inputs", bool(np.allclose(out.dimensions, [ymax - ymin, xmax - xmin])) and bool(np.allclose(out.origin, [xmin, ymax])))
+    ctx.ensure("canvas extent == extremal corners of the inputs", bool(np.allclose(out.dimensions, [ymax - ymin, xmax - xmin], rtol=1e-9, atol=0)) and bool(np.allclose(out.origin, [xmin, ymax], rtol=0, atol=h * 1e-6)))
     ctx.ensure("inputs untouched", all(im.img.shape == s.img.shape for im, s in zip(imgs, imgs)))
